@@ -128,6 +128,45 @@ def gen_case(rng, kind=None, backend=None):
     return spec
 
 
+def maybe_shared(spec):
+    """NetCDF ensembles: some variables stored once for all members (no realization dimension), among them the
+    first variable of the file; own random stream"""
+    import random
+    r2 = random.Random(json.dumps(spec, sort_keys=True, default=str))
+    if spec["backend"] != "netcdf" or spec["E"] < 2 or r2.random() < 0.4:
+        return spec
+    names = sorted({nm for m in range(spec["E"]) for nm in spec["series"][str(m)]})
+    cand = [nm for nm in names if nm in spec["series"]["0"]]
+    shared = [nm for nm in cand if r2.random() < 0.4]
+    if names[0] in cand and names[0] not in shared and len(names) > 1:
+        shared.append(names[0])
+    if len(shared) == len(names):
+        shared = shared[:-1]
+    for nm in shared:
+        for m in range(1, spec["E"]):
+            spec["series"][str(m)][nm] = list(spec["series"]["0"][nm])
+    spec["nc_shared"] = sorted(shared)
+    return spec
+
+
+def maybe_subset(spec, p=0.3, force=False):
+    """optimise on a subset of the imported stamps (times() override): own random stream"""
+    import random
+    r2 = random.Random(json.dumps(spec, sort_keys=True, default=str))
+    h = len(spec["axis"]) - spec["k"]
+    if spec["kind"] != "opt" or h < 4 or not (force or r2.random() < p):
+        return spec
+    if force:
+        idx = [0, 1, 2] + list(range(4, h, 2))
+        if idx[-1] != h - 1:
+            idx.append(h - 1)
+    else:
+        idx = [0] + sorted(r2.sample(range(1, h - 1), r2.randint(1, h - 3))) + [h - 1]
+    spec["times_subset"] = idx
+    spec["ops"] = []
+    return spec
+
+
 # ---- input folders ---------------------------------------------------------------------------------------
 def fl(v):
     return float("nan") if v is None else float(Fraction(v))
@@ -197,7 +236,11 @@ def write_inputs(spec, base):
         sv[0, :] = np.array(list("loc"), dtype="S1")
         names = sorted({nm for m in range(spec["E"]) for nm in spec["series"][str(m)]})
         for nm in names:
-            if spec["E"] > 1:
+            if spec["E"] > 1 and nm in spec.get("nc_shared", []):
+                # one series for all members: no realization dimension
+                v = ds.createVariable(nm, "f8", ("time", "station"), fill_value=np.nan)
+                v[:, 0] = [fl(x) for x in spec["series"]["0"][nm]]
+            elif spec["E"] > 1:
                 v = ds.createVariable(nm, "f8", ("time", "station", "realization"), fill_value=np.nan)
                 for m in range(spec["E"]):
                     vals = spec["series"][str(m)].get(nm, [None] * len(spec["axis"]))
@@ -246,8 +289,17 @@ def read_export(spec, kwargs, outputs):
         import rtctools.data.netcdf as rnc
         ds = rnc.ImportDataset(kwargs["output_folder"], "timeseries_export")
         stamps = [secs(t) for t in ds.read_import_times()]
+        sub = spec.get("times_subset")
         for m in range(ds.ensemble_size):
-            out[str(m)] = {"stamps": stamps, "values": {nm: [fval(x) for x in ds.read_timeseries_values(0, nm, m)] for nm in ds.find_timeseries_variables()}}
+            vals = {nm: [fval(x) for x in ds.read_timeseries_values(0, nm, m)] for nm in ds.find_timeseries_variables()}
+            if sub:
+                # the NetCDF writer exports on all imported stamps (values in between are interpolated): the
+                # optimised values are looked up at the stamps of times()
+                pos = [spec["k"] + i for i in sub]
+                out[str(m)] = {"stamps": [stamps[i] for i in pos], "stamps_all": stamps,
+                               "values": {nm: [v[i] for i in pos] for nm, v in vals.items()}}
+            else:
+                out[str(m)] = {"stamps": stamps, "values": vals}
     return out
 
 
@@ -296,6 +348,13 @@ def run_opt(spec):
             def path_objective(self, ensemble_member):
                 return (self.state("x") - 1.0) ** 2 + 0.1 * self.state("u") ** 2
 
+            def times(self, variable=None):
+                t = super().times(variable)
+                if spec.get("times_subset"):
+                    # the user optimises on a subset of the imported stamps
+                    return t[np.array(spec["times_subset"])]
+                return t
+
             def solver_options(self):
                 o = super().solver_options()
                 o["ipopt"] = {"print_level": 0, "tol": 1e-10}
@@ -314,6 +373,7 @@ def run_opt(spec):
         obs["reference"] = secs(p.io.reference_datetime)
         obs["times_sec"] = [float(t) for t in p.io.times_sec]
         obs["times"] = [float(t) for t in p.times()]
+        obs["times_full"] = [float(t) for t in super(P, p).times()]
         obs["initial_time"] = float(p.initial_time)
         obs["ensemble_size"] = p.ensemble_size
         obs["history"], obs["series"] = {}, {}
@@ -512,6 +572,9 @@ def compare(ctx, spec, obs, vals, keys):
                 bad.append(("axis/datetimes", [obs["datetimes"], obs["reference"]], [spec["axis"], spec["axis"][spec["k"]]]))
             if obs["times_sec"] != [float(t) for t in ts]:
                 bad.append(("axis/times_sec", obs["times_sec"], ts))
+            if spec.get("times_subset"):
+                hz = [hz[i] for i in spec["times_subset"]]
+                stamps = [stamps[i] for i in spec["times_subset"]]
             if obs["times"] != [float(t) for t in hz] or (obs["times"] and obs["times"][0] != 0.0):
                 bad.append(("axis/horizon", obs["times"], hz))
             if spec.get("multiples"):
@@ -519,6 +582,8 @@ def compare(ctx, spec, obs, vals, keys):
                 at = [sum(spec["multiples"][:i]) for i in range(len(spec["multiples"]) + 1)]
                 stamps = [stamps[i] for i in at]
             for m, ex in obs["export"].items():
+                if "stamps_all" in ex and ex["stamps_all"] != spec["axis"]:
+                    bad.append(("export/stamps", ex["stamps_all"], spec["axis"]))
                 if ex["stamps"] != stamps:
                     bad.append(("export/stamps", ex["stamps"], stamps))
                 if "forecast" in ex and ex["forecast"] != spec["axis"][spec["k"]]:
@@ -542,7 +607,7 @@ def compare(ctx, spec, obs, vals, keys):
             decl = {"u": (-4.0, 4.0), "x": (-50.0, 50.0)}[var][0 if side == "Min" else 1]
             # the file series is intersected with the declared bound (C14)
             exp2 = [decl if isinstance(e, str) or e is None else (max(decl, float(e)) if side == "Min" else min(decl, float(e))) for e in exp]
-            if not isinstance(got, list) or got[0] != obs["times"] or not same_vals(got[1], exp2):
+            if not isinstance(got, list) or got[0] != obs.get("times_full", obs["times"]) or not same_vals(got[1], exp2):
                 bad.append(("bounds", [nm, got], exp2))
         elif key[0] == "op":
             op = spec["ops"][key[1]]
@@ -684,7 +749,7 @@ def store_sequences(ctx):
 
 def shape(spec):
     return [spec["kind"], spec["backend"], spec["dt"], len(spec["axis"]), spec["k"], spec["E"], sorted(spec["series"]["0"]),
-            [o["op"] for o in spec["ops"]], [sum(v is None for v in vals) > 0 for vals in spec["series"]["0"].values()]]
+            [o["op"] for o in spec["ops"]], bool(spec.get("times_subset")), [sum(v is None for v in vals) > 0 for vals in spec["series"]["0"].values()]]
 
 
 def run(ctx):
@@ -695,7 +760,16 @@ def run(ctx):
         triples = []
     else:
         specs = [c["spec"] for c in core.corpus_cases(ID)]
-        specs += [gen_case(rng) for _ in range(ctx.n(36, 1200))]
+        specs += [maybe_shared(maybe_subset(gen_case(rng))) for _ in range(ctx.n(36, 1200))]
+        # (deterministic) a NetCDF ensemble whose first variable has no realization dimension
+        d = gen_case(__import__("random").Random(12), "opt", "netcdf")
+        while d["E"] < 2:
+            d = gen_case(__import__("random").Random(len(json.dumps(d))), "opt", "netcdf")
+        d["ops"] = []
+        for m in range(d["E"]):
+            d["series"][str(m)]["extra"] = [str(Fraction(i, 2)) for i in range(len(d["axis"]))]
+        d["nc_shared"] = ["extra"]
+        specs.append(d)
         # the same data through the three optimisation back-ends
         triples = []
         for _ in range(ctx.n(4, 120)):
@@ -705,6 +779,7 @@ def run(ctx):
             if c["E"] > 1:
                 c["E"] = 1
                 c["series"] = {"0": c["series"]["0"]}
+            maybe_subset(c, 0.4, force=not triples)
             tri = []
             for b in ("csv", "pi", "netcdf"):
                 d = json.loads(json.dumps(c))
